@@ -185,10 +185,20 @@ def run(chk):
     ki_probes(chk)
     stop_point_runs(chk, chk.budget(3, 25))
     free_runs(chk, chk.budget(12, 120))
+    # single faults at every call site reached on a worker thread (and network faults of the probes): the stream must
+    # stay well-formed
+    from harness import fault_sweep
+    fault_sweep.sweep(chk, "C11", procs=chk.budget(6, 10))
+    chk.sampled_only += ["fault sweep: one injected exception per call site of a traced real run (sites regenerated from "
+                         "the run itself; quick: pipeline skeleton + 20 sampled sites, thorough: every site, 1st and 2nd "
+                         "call, three exception classes) judged by the reference automaton"]
 
 
 def replay(chk, data):
     import json
+    if (data.get("replay") or {}).get("mechanism") == "fault-sweep":
+        from harness import fault_sweep
+        return fault_sweep.replay(chk, data["replay"])
     print(data.get("what"))
     print(json.dumps(data.get("replay"), indent=1, default=str)[:6000])
     return 0
